@@ -307,6 +307,7 @@ type clientStream struct {
 
 	flow        outflow // guarded by cc.mu
 	inflow      inflow  // guarded by cc.mu
+	bodyClosed  bool    // transportResponseBody.Close returned the unread bytes' flow control; guarded by cc.mu
 	bytesRemain int64   // -1 means unknown; owned by transportResponseBody.Read
 	readErr     error   // sticky read error; owned by transportResponseBody.Read
 
@@ -2234,8 +2235,13 @@ func (b transportResponseBody) Close() error {
 	unread := cs.bufPipe.Len()
 	if unread > 0 {
 		cc.mu.Lock()
-		// Return connection-level flow control.
-		connAdd := cc.inflow.add(unread)
+		// Return connection-level flow control, but only once: the pipe
+		// keeps reporting the discarded bytes on every later Close.
+		var connAdd int32
+		if !cs.bodyClosed {
+			cs.bodyClosed = true
+			connAdd = cc.inflow.add(unread)
+		}
 		cc.mu.Unlock()
 
 		// TODO(dneil): Acquiring this mutex can block indefinitely.
